@@ -1,7 +1,10 @@
 """n14_model: everything C14 needs besides gnet.
 
 * network templates (2-D with three placements of the new points, 3-D,
-  levelling), named observations, deterministic small noise;
+  levelling), named observations, deterministic small noise; the POSITION
+  family (template~r<k>: cluster list rotated, blunder targets @k = k-th
+  scalar of the input) and the direction sets with repeated targets
+  (DP.<word> / DF.<word>);
 * defect injection (structural defects, blunders of a prescribed POSITIONAL
   size) and the enumeration of cases;
 * the reference model: approximate orientation = median of the estimates
